@@ -38,6 +38,10 @@ pub struct FloodCase {
     /// SO_SNDBUF of the server's sockets in KiB (0 = kernel default with auto-tuning)
     #[serde(default)]
     pub server_sndbuf_kib: u16,
+    /// the peer closes its sending direction right after the last request (and still expects
+    /// every reply)
+    #[serde(default)]
+    pub half_close: bool,
 }
 
 pub fn arb_flood() -> BoxedStrategy<FloodCase> {
@@ -50,8 +54,9 @@ pub fn arb_flood() -> BoxedStrategy<FloodCase> {
         any::<u64>(),
         prop::sample::select(vec![0u16, 4, 16, 64]),
         prop::sample::select(vec![0u16, 8, 16, 64]),
+        prop::bool::weighted(0.4),
     )
-        .prop_map(|(tls, n, stall_ms, read_chunk, slow_reads, mix_seed, pace_kib, server_sndbuf_kib)| FloodCase {
+        .prop_map(|(tls, n, stall_ms, read_chunk, slow_reads, mix_seed, pace_kib, server_sndbuf_kib, half_close)| FloodCase {
             tls,
             stall_ms,
             read_chunk,
@@ -59,6 +64,7 @@ pub fn arb_flood() -> BoxedStrategy<FloodCase> {
             mix_seed,
             pace_kib,
             server_sndbuf_kib,
+            half_close,
             // small buffers need far fewer requests to block the server
             n: if server_sndbuf_kib > 0 { 2000 + n % 6000 } else { n },
         })
@@ -202,6 +208,7 @@ fn run_once(case: &FloodCase, slow: u32) -> CaseResult {
         // share the socket's write-readiness waker, and polling them from two tasks loses wake-ups
         let wrote_all = std::sync::Arc::new(std::sync::atomic::AtomicBool::new(false));
         let wrote_all2 = wrote_all.clone();
+        let half_close = case.half_close;
         let writer_fut = async move {
             let mut buf: Vec<u8> = Vec::with_capacity(64 * 1024);
             for i in 0..n {
@@ -216,6 +223,9 @@ fn run_once(case: &FloodCase, slow: u32) -> CaseResult {
             }
             let _ = wr.write_all(&buf).await;
             let _ = wr.flush().await;
+            if half_close {
+                let _ = wr.shutdown().await;
+            }
             wrote_all2.store(true, std::sync::atomic::Ordering::SeqCst);
             // keep the write half open until the reader is done
             std::future::pending::<()>().await
@@ -248,7 +258,12 @@ fn run_once(case: &FloodCase, slow: u32) -> CaseResult {
                     break;
                 }
                 Ok(Ok(0)) | Ok(Err(_)) => {
-                    failure = Some(format!("the server closed the connection after {} complete replies of {}", next, n));
+                    failure = Some(format!(
+                        "the connection ended after {} complete replies of {}{}",
+                        next,
+                        n,
+                        if half_close { " (the peer had closed its sending direction after the last request; every request was sent before that)" } else { "" }
+                    ));
                     break;
                 }
                 Ok(Ok(k)) => k,
@@ -336,8 +351,163 @@ fn run_once(case: &FloodCase, slow: u32) -> CaseResult {
         if case.server_sndbuf_kib > 0 {
             ok.label("small_server_send_buffer");
         }
+        if case.half_close {
+            ok.label("peer_half_closed");
+        }
         // far more reply bytes than the sockets can hold
         ok.nontrivial = total > 4_000_000 || (case.server_sndbuf_kib > 0 && total > 400_000);
+        Ok(ok)
+    })
+}
+
+// ---------------------------------------------------------------------------------------------
+// C05 over a real TCP socket: requests arrive in pieces of a few bytes while the server handle
+// keeps sending commands (decode level set to its current value). Reads of a few bytes that are
+// interrupted by a command are where a transport read that is not cancellation-safe loses bytes.
+
+#[derive(Clone, Debug, PartialEq, Eq, Hash, Serialize, Deserialize)]
+pub struct FragCase {
+    pub tls: bool,
+    pub requests: u16,
+    /// piece sizes, cycled
+    pub pieces: Vec<u8>,
+    /// after which pieces (index mod len) a command is sent, and how (0 = not, 1 = awaited right
+    /// after the write, 2 = awaited after yielding once)
+    pub commands: Vec<u8>,
+    /// pause after each piece in hundreds of microseconds (0 = none)
+    pub pauses: Vec<u8>,
+    pub mix_seed: u64,
+}
+
+pub fn arb_frag() -> BoxedStrategy<FragCase> {
+    (
+        prop::bool::weighted(0.3),
+        8u16..60,
+        proptest::collection::vec(1u8..=8, 1..8),
+        proptest::collection::vec(0u8..3, 1..8),
+        proptest::collection::vec(prop_oneof![3 => Just(0u8), 1 => 1u8..40], 1..6),
+        any::<u64>(),
+    )
+        .prop_map(|(tls, requests, pieces, commands, pauses, mix_seed)| FragCase {
+            tls,
+            requests,
+            pieces,
+            commands,
+            pauses,
+            mix_seed,
+        })
+        .boxed()
+}
+
+pub fn check_frag(case: &FragCase) -> CaseResult {
+    retry3(|slow| run_frag(case, slow))
+}
+
+fn run_frag(case: &FragCase, slow: u32) -> CaseResult {
+    let rt = rt(3);
+    let case = case.clone();
+    rt.block_on(async move {
+        let listener = TcpListener::bind("127.0.0.1:0").await.map_err(|e| format!("INFRA: bind: {}", e))?;
+        let addr = listener.local_addr().unwrap();
+        let map = ServerHandlerMap::single(UnitId::new(9), Fixed.wrap());
+        let (mut handle, task) = if case.tls {
+            let cfg = TlsServerConfig::new(
+                &path("ca1", "pem"),
+                &path("server_ok", "pem"),
+                &path("server_ok", "key"),
+                None,
+                super::c09::min_tls(12),
+                rodbus::client::CertificateMode::AuthorityBased,
+            )
+            .map_err(|e| format!("INFRA: tls config {}", e))?;
+            rodbus::server::create_tls_server_task(2, listener, map, cfg, AddressFilter::Any, DecodeLevel::nothing())
+        } else {
+            rodbus::server::create_tcp_server_task(2, listener, map, AddressFilter::Any, DecodeLevel::nothing())
+        };
+        let join = tokio::spawn(task.run());
+        let tcp = tokio::net::TcpStream::connect(addr).await.map_err(|e| format!("INFRA: connect {}", e))?;
+        let _ = tcp.set_nodelay(true);
+        let mut link: Link = if case.tls {
+            let connector = tokio_rustls::TlsConnector::from(peer_client_config(Offer::Both, Some("client_operator")));
+            let name = ServerName::try_from("test.com").unwrap();
+            match tokio::time::timeout(Duration::from_secs(5), connector.connect(name, tcp)).await {
+                Ok(Ok(t)) => Box::new(t),
+                _ => return Err("INFRA: TLS handshake with the server failed".to_string()),
+            }
+        } else {
+            Box::new(tcp)
+        };
+        let wait = Duration::from_millis(2000 * slow as u64);
+        let mut piece_no = 0usize;
+        let mut commands_sent = 0u32;
+        let mut small_pieces = 0u32;
+        for i in 0..case.requests as u32 {
+            let (req, rep) = exchange(case.mix_seed, i);
+            let frame = mbap_frame(i as u16, 9, &req);
+            let want = mbap_frame(i as u16, 9, &rep);
+            let mut at = 0usize;
+            while at < frame.len() {
+                let n = (case.pieces[piece_no % case.pieces.len()] as usize).min(frame.len() - at);
+                if n < 7 {
+                    small_pieces += 1;
+                }
+                link.write_all(&frame[at..at + n]).await.map_err(|e| format!("INFRA: write {}", e))?;
+                let _ = link.flush().await;
+                at += n;
+                match case.commands[piece_no % case.commands.len()] {
+                    0 => {}
+                    how => {
+                        if how == 2 {
+                            tokio::task::yield_now().await;
+                        }
+                        if handle.set_decode_level(DecodeLevel::nothing()).await.is_err() {
+                            return Err("set_decode_level failed on a running server".to_string());
+                        }
+                        commands_sent += 1;
+                    }
+                }
+                let p = case.pauses[piece_no % case.pauses.len()];
+                if p > 0 {
+                    tokio::time::sleep(Duration::from_micros(100 * p as u64)).await;
+                }
+                piece_no += 1;
+            }
+            // the reply to this request
+            let mut got = vec![0u8; want.len()];
+            match tokio::time::timeout(wait, link.read_exact(&mut got)).await {
+                Ok(Ok(_)) if got == want => {}
+                Ok(Ok(_)) => {
+                    return Err(format!(
+                        "request {} of {} sent in pieces of {:?} bytes with commands after some of them: the reply differs from the reference ({:02X?}.. vs {:02X?}..)",
+                        i,
+                        case.requests,
+                        case.pieces,
+                        &got[..got.len().min(12)],
+                        &want[..want.len().min(12)]
+                    ))
+                }
+                _ => {
+                    return Err(format!(
+                        "request {} of {} on one {} connection sent in pieces of {:?} bytes with {} server commands in between so far: no (complete) reply within {:?} - bytes of the request were lost",
+                        i,
+                        case.requests,
+                        if case.tls { "TLS" } else { "TCP" },
+                        case.pieces,
+                        commands_sent,
+                        wait
+                    ))
+                }
+            }
+        }
+        drop(link);
+        drop(handle);
+        let _ = tokio::time::timeout(Duration::from_secs(5), join).await;
+        let mut ok = CaseOk::new();
+        ok.label(if case.tls { "transport:tls" } else { "transport:tcp" });
+        if commands_sent >= 10 {
+            ok.label("commands>=10");
+        }
+        ok.nontrivial = commands_sent >= 10 && small_pieces >= 20;
         Ok(ok)
     })
 }
